@@ -7,6 +7,7 @@ import (
 	"fmt"
 	"io"
 	"os"
+	"regexp"
 	"sort"
 	"strings"
 	"sync"
@@ -86,9 +87,12 @@ func New(sim *zsim.Sim) *OS {
 	return o
 }
 
+var tempName = regexp.MustCompile(`(verif-run-|run-|fzf-temp-|verif-stdout-)[0-9]+`)
+
+// logf writes to the run history. Temp-file names are random: they never enter the log.
 func (o *OS) logf(format string, a ...any) {
 	if o.Log != nil {
-		o.Log(format, a...)
+		o.Log("%s", tempName.ReplaceAllString(fmt.Sprintf(format, a...), "${1}N"))
 	}
 }
 
